@@ -21,16 +21,27 @@ RULE = ('programs of 1..6 NumPy-style steps (row/column integer, slice, mask, fa
         'of which one indexes a value that is itself the result of an indexing step, or an assignment / comparison '
         'under a non-base encoding')
 EXHAUSTIVE = {'quick': False, 'thorough': False}
-TIE = ('correspondence (the op program is evaluated in Coq by Model.C07.m_run on raw codes and by Spec on characters; '
-       'every step of the implementation is compared with both)')
+TIE = ('correspondence (the op program is evaluated in Coq by Model.C07.m_step_v on raw codes — variant [current] in '
+       'Corr/C07.v — and by the Spec instance of g_step on characters; every step of the implementation is compared '
+       'with both, and the Spec with Python\'s own list/str indexing)')
 ASSUMPTIONS = ['A-NPS: npstructures.RaggedArray (external library) is modelled by its list-of-rows meaning; the model is '
                'validated against it on every generated program, not verified',
                'characters are ASCII; for alphabet encodings the "corresponding Python string" is the upper-cased text '
                '(encodings are case-insensitive by design, C06)',
                'comparison / assignment operands avoid the characters (non-letter member)+32 that the alphabet lookup '
-               'table wrongly accepts (known finding of C06)']
-PARTIAL = ['C07_encode1_partial: the lookup table of the code at HEAD agrees with alphabet membership only outside '
-           '(non-letter member)+32 (C06 finding); C07_encode1_refuted exhibits DigitEncoding "P"']
+               'table wrongly accepts (known finding of C06)',
+               'bnp.ragged_slice / a[starts:ends] mean segments of the FLATTENED text (tests/test_ragged_slice.py pins this; '
+               'the docstring of bnp.ragged_slice says column-wise)',
+               'assignment targets never repeat a position (NumPy leaves the order of such writes unspecified)']
+PARTIAL = ['C07_lookup_pinned_partial / C07_program_pinned_partial: with the lookup table of the code at HEAD the simulation '
+           'holds for operand characters outside (non-letter member)+32 (C06 finding); C07_lookup_pinned_refuted exhibits '
+           'DigitEncoding "P"; C07_lookup_fixed / C07_program_fixed are unrestricted for the repaired table',
+           'C07_step_pinned_partial / _refuted: at HEAD storing one character at ONE integer position raises (finding '
+           'C07-setitem-scalar-position); everywhere else HEAD is the step function the theorems are about',
+           'string_array(...) (op SArr) is outside the simulation theorem (trailing NULs vanish in the fixed-width view); '
+           'it is checked by correspondence only',
+           'unsupported forms, not generated: np.full_like(encoded, ch) (TypeError always), r[rows] = ch and r[rows, a:b] = ch '
+           '(a single character is not broadcast over a multi-row selection: AttributeError), r[[], []] with untyped empty lists']
 PER_FILE = 40
 
 ENCS = {
@@ -347,6 +358,14 @@ def ref_step(st, op):
             return ('R', enc, out), None
         if name == 'iter':
             return st, ('S', list(s))
+        if name == 'fslices':          # a[starts:ends] with array bounds: segments of the text (npstructures ragged_slice)
+            starts, ends = op[1], op[2]
+            assert len(starts) == len(ends) and all(0 <= a <= len(s) for a in starts)
+            out = []
+            for a, b in zip(starts, ends):
+                b = len(s) + b if b < 0 else min(b, len(s))
+                out.append(s[a:max(a, b)])
+            return ('R', enc, out), None
         raise ValueError(name)
     if k == 'C':
         if name == 'eq':
@@ -543,6 +562,8 @@ def impl_step(x, op, enc):
         return x, _mask_obs(str_equal(x, bnp.as_encoded_array(list(op[1]), _enc_obj(enc))))
     if name == 'full_like':
         return np.full_like(x, op[1]), None
+    if name == 'fslices':
+        return x[np.array(op[1], dtype=int):np.array(op[2], dtype=int)], None
     if name == 'stack':
         parts = [x if o[0] == 'self' else x[_sl(o[1])] for o in op[1]]
         return bnp.as_encoded_array(parts), None
@@ -668,17 +689,17 @@ def _distinct_sel(rng, n, kinds='sfm'):
 R_OPS = ['row_int', 'row_slice', 'row_slice', 'row_fancy', 'row_mask', 'col_slice', 'col_slice', 'col_rev', 'rc', 'rc', 'rows_col', 'elem',
          'elems', 'eq', 'eq', 'mask_eq', 'set', 'set', 'set', 'concat', 'copy', 'ravel', 'str', 'sarr', 'rslice', 'join',
          'streq', 'streq2']
-F_OPS = ['idx', 'idx', 'idx', 'rev', 'eq', 'eq', 'mask_eq', 'set', 'set', 'concat', 'append', 'insert', 'where', 'copy', 'ravel',
+F_OPS = ['idx', 'idx', 'idx', 'rev', 'fslices', 'eq', 'eq', 'mask_eq', 'set', 'set', 'concat', 'append', 'insert', 'where', 'copy', 'ravel',
          'str', 'split', 'stack', 'iter']
 C_OPS = ['eq', 'str']
 
 
-def _cand(rng, st, pf):
+def _cand(rng, st, pf, force=None):
     k, enc, v = st
     if k == 'R':
         rows = v
         n = len(rows)
-        name = rng.choice(R_OPS)
+        name = force or rng.choice(R_OPS)
         maxl = max([len(r) for r in rows] + [0])
         if name == 'row_int':
             return ['row_int', rng.randint(-n, n - 1)]
@@ -786,11 +807,14 @@ def _cand(rng, st, pf):
     if k == 'F':
         s = v
         n = len(s)
-        name = rng.choice(F_OPS)
+        name = force or rng.choice(F_OPS)
         if name == 'idx':
             return ['idx', _rsel(rng, n, 'isfm')]
         if name == 'rev':
             return ['idx', ['s', [None, None, -1]]]
+        if name == 'fslices':
+            k2 = rng.randint(0, 3)
+            return ['fslices', [rng.randint(0, n) for _ in range(k2)], [rng.randint(-n, n + 2) for _ in range(k2)]]
         if name == 'eq':
             neg = rng.random() < 0.3
             r = rng.random()
@@ -844,13 +868,14 @@ def _cand(rng, st, pf):
     return None
 
 
-def _program(rng, enc, init, nsteps, pf=0.12):
+def _program(rng, enc, init, nsteps, pf=0.12, forced=()):
     st = ('R', enc, [canon(enc, s) for s in init['rows']]) if init['kind'] == 'R' else ('F', enc, canon(enc, init['s']))
     ops = []
-    for _ in range(nsteps):
+    plan = [None] * nsteps + list(forced)
+    for want in plan:
         for _try in range(30):
             try:
-                op = _cand(rng, st, pf)
+                op = ['copy'] if want == 'copy' else _cand(rng, st, 0.0 if want else pf, force=want)
                 if op is None:
                     continue
                 st2, ob = ref_step(st, op)
@@ -899,6 +924,15 @@ def generate(tier, seed):
         else:
             init = dict(kind='F', s=_rstr(rng, enc, rng.choice([0, 1, 2, 3, 5, 8])))
         cases.append(_program(rng, enc, init, rng.randint(1, 6)))
+    # 3. copy() then assignment: the object the copy was taken from must not change
+    for i in range(60 if tier == 'quick' else 400):
+        enc = ['DNA', 'Base', 'ACGTn', 'Amino'][i % 4]
+        if i % 3:
+            init = dict(kind='R', rows=[_rstr(rng, enc, rng.randint(1, 4)) for _ in range(rng.randint(1, 4))])
+        else:
+            init = dict(kind='F', s=_rstr(rng, 'DNA' if enc == 'Base' else enc, rng.randint(2, 6)))
+            enc = 'DNA' if enc == 'Base' else enc       # base-encoded text from a str is read-only at HEAD (finding)
+        cases.append(_program(rng, enc, init, rng.randint(0, 2), forced=('copy', 'set', 'set')))
     cases = [c for c in cases if c['ops']]
     cases.sort(key=lambda c: len(c['ops']) * 100 + len(str(c['init'])))
     return cases
@@ -997,6 +1031,8 @@ def _op_term(op):
         return n.capitalize()
     if n == 'sarr':
         return 'SArr'
+    if n == 'fslices':
+        return '(RSlice %s (Some %s))' % (zl(op[1]), zl(op[2]))
     if n == 'rslice':
         return '(RSlice %s %s)' % (zl(op[1]), '(@None (list Z))' if op[2] is None else '(Some %s)' % zl(op[2]))
     if n == 'join':
@@ -1150,7 +1186,7 @@ def signature(case, obs):
     return '%s/%s/%s/%s' % (d[1][0], op[0], op[1][0] if op[0] == 'set' else '', o.get('err', o.get('k')))
 
 
-INDEXING = {'row_int', 'row_slice', 'row_fancy', 'row_mask', 'col_slice', 'rc', 'rows_col', 'elem', 'elems', 'idx', 'mask_eq',
+INDEXING = {'fslices', 'row_int', 'row_slice', 'row_fancy', 'row_mask', 'col_slice', 'rc', 'rows_col', 'elem', 'elems', 'idx', 'mask_eq',
             'rslice', 'split', 'stack'}
 
 
